@@ -173,7 +173,7 @@ class GlueMixin:
         if not self.glue():
             return super().e_Call(n, st)
         # spec builtins and known python builtins go the normal way
-        if isinstance(n.func, ast.Name) and (n.func.id in GLUE_SPEC or n.func.id in ("len", "implies", "all", "any", "old", "range", "list", "tuple", "isinstance", "repr")):
+        if isinstance(n.func, ast.Name) and (n.func.id in GLUE_SPEC or n.func.id in ("len", "implies", "all", "any", "old", "range", "list", "tuple", "repr")):
             if n.func.id in GLUE_SPEC:
                 args = [self.eval(a, st) for a in n.args]
                 return getattr(self, "g_" + n.func.id)(args, st)
@@ -181,6 +181,8 @@ class GlueMixin:
         t = ast.unparse(n.func)
         if t.startswith("logging.") or t == "print":
             return None
+        if t == "isinstance":
+            return self.cond_bool("isinstance(%s)" % ", ".join(render(self.eval(a, st)) for a in n.args))
         fn = self.eval(n.func, st)
         if isinstance(fn, SFunc) and fn.handler and fn.handler[0] == "method" and isinstance(fn.handler[1], str):
             return super().e_Call(n, st)  # str.split etc. on concrete strings
@@ -214,6 +216,28 @@ class GlueMixin:
             from .lazy import _Lit
             return super().e_BinOp(ast.BinOp(left=_Lit(a), op=n.op, right=_Lit(b), lineno=n.lineno, col_offset=0), st)
         return super().e_BinOp(n, st)
+
+    def e_UnaryOp(self, n, st):
+        if self.glue():
+            v = self.eval(n.operand, st)
+            if isinstance(v, Op):
+                if isinstance(n.op, ast.Not):
+                    return bnot(self.cond_bool(v.text))
+                return Op("(%s%s)" % ({ast.USub: "-", ast.UAdd: "+", ast.Invert: "~"}[type(n.op)], v.text))
+            from .lazy import _Lit
+            return super().e_UnaryOp(ast.UnaryOp(op=n.op, operand=_Lit(v), lineno=n.lineno, col_offset=0), st)
+        return super().e_UnaryOp(n, st)
+
+    def g_branch(self, args, st):
+        """polarity of the first branch condition whose text contains the fragment (None if not reached)"""
+        for e in st.ghost.get("trace", []):
+            if e[0] == "assume" and args[0] in e[1]:
+                return e[2]
+        return None
+
+    def g_stored_at(self, args, st):
+        """True iff some field/item store has a target text containing the fragment"""
+        return any(e[0] in ("set", "setitem") and args[0] in e[1] for e in st.ghost.get("trace", []))
 
     def e_Compare(self, n, st):
         if self.glue():
@@ -328,4 +352,4 @@ class GlueMixin:
         return SList([(e[2] if e[0] == "call" else "%s = %s" % (e[1], e[2])) for e in self._events(st)])
 
 
-GLUE_SPEC = {"swap_closed", "no_right_effect", "right_enabled", "ncalls", "call_mentions", "called_before", "sets", "event_texts", "last_store"}
+GLUE_SPEC = {"swap_closed", "no_right_effect", "right_enabled", "ncalls", "call_mentions", "called_before", "sets", "event_texts", "last_store", "branch", "stored_at"}
